@@ -780,7 +780,7 @@ Proof. cbn [lstep]. destruct (cache s); reflexivity. Qed.
 Lemma gstep_from_nth v bk tys e : forall g j0 j s,
   nth_error g j = Some s ->
   nth_error (gstep_from v bk tys j0 g e) j =
-  Some (lstep_opt v (is_l2gw tys (j0 + j)) s (project bk (j0 + j)%nat e)).
+  Some (lstep_opt v (is_l2gw tys (j0 + j)) s (option_map (l2tp_view v (is_l2tp tys (j0 + j))) (project bk (j0 + j)%nat e))).
 Proof.
   induction g as [|s0 r IH]; intros j0 j s H.
   - destruct j; discriminate.
@@ -791,7 +791,8 @@ Qed.
 
 Lemma gstep_nth v bk tys g e j s :
   nth_error g j = Some s ->
-  nth_error (gstep v bk tys g e) j = Some (lstep_opt v (is_l2gw tys j) s (project bk j e)).
+  nth_error (gstep v bk tys g e) j =
+  Some (lstep_opt v (is_l2gw tys j) s (option_map (l2tp_view v (is_l2tp tys j)) (project bk j e))).
 Proof. intros H. unfold gstep. rewrite (gstep_from_nth v bk tys e g 0 j s H). reflexivity. Qed.
 
 Lemma gstep_length v bk tys e : forall g j0, length (gstep_from v bk tys j0 g e) = length g.
@@ -799,30 +800,33 @@ Proof. induction g; intros; cbn; auto. Qed.
 
 (* component run: states after a list of component-level events, and session j's local run over the
    events addressed to it *)
-Fixpoint grun (v : variant) (bk : list N) (tys : list bool) (g : list sst) (evs : list gev) : list sst :=
+Fixpoint grun (v : variant) (bk : list N) (tys : list N) (g : list sst) (evs : list gev) : list sst :=
   match evs with
   | [] => g
   | e :: r => grun v bk tys (map fst (gstep v bk tys g e)) r
   end.
-Fixpoint local_events (bk : list N) (j : nat) (evs : list gev) : list sev :=
+Fixpoint local_events (v : variant) (bk : list N) (tys : list N) (j : nat) (evs : list gev) : list sev :=
   match evs with
   | [] => []
-  | e :: r => match project bk j e with Some le => le :: local_events bk j r | None => local_events bk j r end
+  | e :: r => match project bk j e with
+              | Some le => l2tp_view v (is_l2tp tys j) le :: local_events v bk tys j r
+              | None => local_events v bk tys j r end
   end.
 
 Lemma component_is_product v bk tys evs : forall g j s,
   nth_error g j = Some s ->
-  nth_error (grun v bk tys g evs) j = Some (fst (lrun v (is_l2gw tys j) s (local_events bk j evs))).
+  nth_error (grun v bk tys g evs) j = Some (fst (lrun v (is_l2gw tys j) s (local_events v bk tys j evs))).
 Proof.
   induction evs as [|e r IH]; intros g j s H; cbn [grun local_events].
   - cbn. exact H.
   - pose proof (gstep_nth v bk tys g e j s H) as G.
-    assert (H1 : nth_error (map fst (gstep v bk tys g e)) j = Some (fst (lstep_opt v (is_l2gw tys j) s (project bk j e)))).
+    assert (H1 : nth_error (map fst (gstep v bk tys g e)) j =
+                 Some (fst (lstep_opt v (is_l2gw tys j) s (option_map (l2tp_view v (is_l2tp tys j)) (project bk j e))))).
     { rewrite nth_error_map, G. reflexivity. }
     rewrite (IH _ j _ H1).
-    destruct (project bk j e) as [le|]; cbn [lstep_opt fst].
-    + cbn [lrun]. destruct (lstep v (is_l2gw tys j) s le) as [s1 o]. cbn [fst].
-      destruct (lrun v (is_l2gw tys j) s1 (local_events bk j r)); reflexivity.
+    destruct (project bk j e) as [le|]; cbn [lstep_opt option_map fst].
+    + cbn [lrun]. destruct (lstep v (is_l2gw tys j) s (l2tp_view v (is_l2tp tys j) le)) as [s1 o]. cbn [fst].
+      destruct (lrun v (is_l2gw tys j) s1 (local_events v bk tys j r)); reflexivity.
     + reflexivity.
 Qed.
 
